@@ -846,6 +846,157 @@ def render_cache() -> str:
     return "\n".join(lines)
 
 
+# ---------------------------------------------------------------------------------------------
+# SetValidator / UniformTupleValidator (set.py, tuple.py) -> Koda.QStmt (lean/KodaModel/PySeq.lean)
+
+OUT_SEQ = os.path.join(os.path.dirname(OUT), "SeqSrc.lean")
+QVARS = {"coerced": "coerced", "coerced_val": "coercedVal", "list_errors": "listErrors", "tuple_errors": "listErrors",
+         "return_list": "returnList", "return_set": "returnList", "index_errors": "indexErrs", "item_errs": "indexErrs",
+         "i": "i", "item": "item", "is_valid": "isValid", "item_result": "itemResult",
+         "predicate_errors": "predicateErrors", "pred": "pred", "pred_async": "predAsync", "_result": "result"}
+QSELF = {"coerce": "coerce", "predicates": "predicates", "predicates_async": "predicatesAsync", "__class__": "cls",
+         "_item_validator_is_tuple": "itemIsTuple", "item_validator": "itemValidator"}
+QATTRS = {"is_just": "isJust", "val": "valA", "compatible_types": "compatibleTypes", "is_valid": "isValid"}
+QMETHS = {"__call__": "call", "validate_async": "validateAsync", "_validate_to_tuple": "validateToTuple",
+          "_validate_to_tuple_async": "validateToTupleAsync"}
+QCTORS = {"CoercionErr": ("mkCoercionErr", 2), "TypeErr": ("mkTypeErr", 1), "PredicateErrs": ("mkPredErrs", 1),
+          "IndexErrs": ("mkIndexErrs", 1), "SetErrs": ("mkSetErrs", 1), "Invalid": ("mkInvalid", 3),
+          "_async_predicates_warning": ("warn", 1), "enumerate": ("enumerate", 1), "tuple": ("tupleOf", 1)}
+QTYS = {"list": ".listTy", "set": ".setTy", "tuple": ".tupleTy"}
+
+
+class QTr:
+    """one instance per function: two source names may not share a slot of the interpreter's environment"""
+
+    def __init__(self) -> None:
+        self.slots: Dict[str, str] = {}
+
+    def var(self, name: str) -> Optional[str]:
+        if name not in QVARS:
+            return None
+        slot = QVARS[name]
+        if self.slots.setdefault(slot, name) != name:
+            return None
+        return slot
+
+    def exp(self, e: ast.expr) -> str:
+        if isinstance(e, ast.Name):
+            if e.id == "self":
+                return ".self"
+            if e.id == "val":
+                return ".val"
+            if e.id in QTYS:
+                return QTYS[e.id]
+            v = self.var(e.id)
+            if v:
+                return f"(.var .{v})"
+        if isinstance(e, ast.Constant) and isinstance(e.value, bool):
+            return f"(.bool {'true' if e.value else 'false'})"
+        if isinstance(e, ast.List) and not e.elts:
+            return ".emptyList"
+        if isinstance(e, ast.Dict) and not e.keys:
+            return ".emptyDict"
+        if isinstance(e, ast.Await):
+            return f"(.await {self.exp(e.value)})"
+        if isinstance(e, ast.Tuple) and len(e.elts) == 2:
+            return f"(.pair {self.exp(e.elts[0])} {self.exp(e.elts[1])})"
+        if isinstance(e, ast.IfExp):
+            return f"(.ifExp {self.exp(e.test)} {self.exp(e.body)} {self.exp(e.orelse)})"
+        if isinstance(e, ast.NamedExpr) and isinstance(e.target, ast.Name) and self.var(e.target.id):
+            return f"(.walrus .{self.var(e.target.id)} {self.exp(e.value)})"
+        if isinstance(e, ast.UnaryOp) and isinstance(e.op, ast.Not):
+            return f"(.not {self.exp(e.operand)})"
+        if isinstance(e, ast.Compare) and len(e.ops) == 1:
+            l, r = e.left, e.comparators[0]
+            if (isinstance(e.ops[0], ast.Is) and isinstance(l, ast.Call) and isinstance(l.func, ast.Name) and l.func.id == "type"
+                    and len(l.args) == 1 and not l.keywords and isinstance(r, ast.Name) and r.id in QTYS):
+                return f"(.typeIs {self.exp(l.args[0])} {QTYS[r.id]})"
+            if isinstance(e.ops[0], ast.IsNot) and isinstance(r, ast.Constant) and r.value is None:
+                return f"(.isNotNone {self.exp(l)})"
+        if isinstance(e, ast.Attribute):
+            if isinstance(e.value, ast.Name) and e.value.id == "self":
+                a = f".{QSELF[e.attr]}" if e.attr in QSELF else f"(.other {lstr(e.attr)})"
+                return f"(.selfAttr {a})"
+            a = f".{QATTRS[e.attr]}" if e.attr in QATTRS else f"(.other {lstr(e.attr)})"
+            return f"(.attr {self.exp(e.value)} {a})"
+        if (isinstance(e, ast.ListComp) and len(e.generators) == 1 and not e.generators[0].is_async
+                and len(e.generators[0].ifs) == 1 and isinstance(e.generators[0].target, ast.Name)
+                and self.var(e.generators[0].target.id)):
+            g = e.generators[0]
+            return f"(.listComp {self.exp(e.elt)} .{self.var(g.target.id)} {self.exp(g.iter)} {self.exp(g.ifs[0])})"
+        if isinstance(e, ast.Call) and not e.keywords and not any(isinstance(a, ast.Starred) for a in e.args):
+            f, args = e.func, e.args
+            if isinstance(f, ast.Name) and f.id == "set" and not args:
+                return ".emptySet"
+            if isinstance(f, ast.Name) and f.id in QCTORS and len(args) == QCTORS[f.id][1]:
+                return f"(.{QCTORS[f.id][0]} {' '.join(self.exp(a) for a in args)})"
+            if isinstance(f, ast.Attribute) and f.attr in QMETHS and len(args) == 1 and (
+                    (isinstance(f.value, ast.Name) and f.value.id in QVARS)
+                    or (isinstance(f.value, ast.Attribute) and isinstance(f.value.value, ast.Name) and f.value.value.id == "self")):
+                return f"(.meth {self.exp(f.value)} .{QMETHS[f.attr]} {self.exp(args[0])})"
+            if len(args) == 1 and not (isinstance(f, ast.Name) and f.id not in QVARS):
+                return f"(.call1 {self.exp(f)} {self.exp(args[0])})"
+        return f"(.unsupported {lstr(ast.dump(e)[:160])})"
+
+    def stmt(self, s: ast.stmt) -> str:
+        if isinstance(s, ast.Assign) and len(s.targets) == 1:
+            t = s.targets[0]
+            if isinstance(t, ast.Name) and self.var(t.id):
+                return f"(.assign .{self.var(t.id)} {self.exp(s.value)})"
+            if (isinstance(t, ast.Tuple) and len(t.elts) == 2 and all(isinstance(x, ast.Name) and self.var(x.id) for x in t.elts)):
+                return f"(.assign2 .{self.var(t.elts[0].id)} .{self.var(t.elts[1].id)} {self.exp(s.value)})"
+            if isinstance(t, ast.Subscript) and isinstance(t.value, ast.Name) and self.var(t.value.id):
+                return f"(.setItem .{self.var(t.value.id)} {self.exp(t.slice)} {self.exp(s.value)})"
+        if isinstance(s, ast.AnnAssign) and isinstance(s.target, ast.Name) and self.var(s.target.id) and s.value is not None:
+            return f"(.assign .{self.var(s.target.id)} {self.exp(s.value)})"
+        if isinstance(s, ast.If):
+            return f"(.ite {self.exp(s.test)} {self.block(s.body)} {self.block(s.orelse)})"
+        if isinstance(s, ast.For) and not s.orelse:
+            t = s.target
+            if isinstance(t, ast.Name) and self.var(t.id):
+                return f"(.forIn .{self.var(t.id)} {self.exp(s.iter)} {self.block(s.body)})"
+            if isinstance(t, ast.Tuple) and len(t.elts) == 2 and all(isinstance(x, ast.Name) and self.var(x.id) for x in t.elts):
+                return f"(.forIn2 .{self.var(t.elts[0].id)} .{self.var(t.elts[1].id)} {self.exp(s.iter)} {self.block(s.body)})"
+        if isinstance(s, ast.Return) and s.value is not None:
+            return f"(.ret {self.exp(s.value)})"
+        if isinstance(s, ast.Expr) and isinstance(s.value, ast.Call):
+            c = s.value
+            if (isinstance(c.func, ast.Attribute) and c.func.attr in ("append", "extend", "add") and isinstance(c.func.value, ast.Name)
+                    and self.var(c.func.value.id) and len(c.args) == 1 and not c.keywords):
+                return f"(.{c.func.attr} .{self.var(c.func.value.id)} {self.exp(c.args[0])})"
+            return f"(.expr {self.exp(c)})"
+        return f"(.unsupported {lstr(ast.dump(s)[:160])})"
+
+    def block(self, body: List[ast.stmt]) -> str:
+        body = [s for s in body if not (isinstance(s, ast.Expr) and isinstance(s.value, ast.Constant))]
+        return "[" + ", ".join(self.stmt(s) for s in body) + "]"
+
+
+SEQ_TARGETS = [("set.py", "SetValidator", "_validate_to_tuple", "setSync"),
+               ("set.py", "SetValidator", "_validate_to_tuple_async", "setAsync"),
+               ("tuple.py", "UniformTupleValidator", "_validate_to_tuple", "utupleSync"),
+               ("tuple.py", "UniformTupleValidator", "_validate_to_tuple_async", "utupleAsync")]
+
+
+def render_seq() -> str:
+    lines = ["/- GENERATED by harness/pysrc.py from the current source of /repo/koda_validate/set.py, tuple.py — do not edit -/",
+             "import KodaModel.PySeq", "", "namespace Koda.Src", ""]
+    for fn, cls, meth, name in SEQ_TARGETS:
+        m = _find_method(fn, cls, meth)
+        ok = (m is not None and [a.arg for a in m.args.args] == ["self", "val"] and not m.decorator_list
+              and isinstance(m, ast.AsyncFunctionDef) == meth.endswith("_async"))
+        term = QTr().block(m.body) if ok else '[.unsupported "not found / signature"]'
+        lines += [f"def {name} : List QStmt :=", f"  {term}", ""]
+    inits = []
+    for fn, cls in (("set.py", "SetValidator"), ("tuple.py", "UniformTupleValidator")):
+        m = _find_method(fn, cls, "__init__")
+        inits.append(f"{cls}.__init__: " + (" ; ".join(ast.unparse(b) for b in m.body
+                                                       if not (isinstance(b, ast.Expr) and isinstance(b.value, ast.Constant)))
+                                            if m is not None else "<not found>"))
+    lines += ["def seqInits : List String := [" + ", ".join(lstr(x) for x in inits) + "]", "", "end Koda.Src", ""]
+    return "\n".join(lines)
+
+
 def render() -> str:
     found = collect()
     lines = ["/- GENERATED by harness/pysrc.py from the current source of /repo/koda_validate — do not edit -/",
@@ -864,7 +1015,7 @@ def render() -> str:
 
 def regenerate() -> bool:
     changed = False
-    for path, new in ((OUT, render()), (OUT_COERCE, render_coerce()), (OUT_SCALAR, render_scalar()), (OUT_UNION, render_union()), (OUT_LIST, render_list()), (OUT_WRAP, render_wrap()), (OUT_EQ, render_eq()), (OUT_CACHE, render_cache())):
+    for path, new in ((OUT, render()), (OUT_COERCE, render_coerce()), (OUT_SCALAR, render_scalar()), (OUT_UNION, render_union()), (OUT_LIST, render_list()), (OUT_WRAP, render_wrap()), (OUT_EQ, render_eq()), (OUT_CACHE, render_cache()), (OUT_SEQ, render_seq())):
         old = open(path).read() if os.path.exists(path) else None
         if new != old:
             with open(path, "w") as f:
